@@ -120,15 +120,21 @@ def make_body(env, names, script, exit_on_exception, unsat):
                 val = {"a": p.get_value(a).constant_value(), "b": p.get_value(b).constant_value()}
                 obs["model_ok"] = bool(holds(base, val))
             elif script == "solve-push-solve":
+                # the verdicts of consecutive rounds differ (sat, unsat, sat / unsat, unsat, unsat), so a
+                # stale answer of an earlier round is observable
                 p.push()
-                p.add_assertion(m.Not(a))
+                p.add_assertion(m.And(m.Not(a), m.Not(b)))
                 obs["verdict2"] = p.solve()
                 if obs["verdict2"]:
                     model = p.get_model()
                     val = {"a": model.get_py_value(a), "b": model.get_py_value(b)}
-                    obs["model2_ok"] = bool(holds(m.And(base, m.Not(a)), val))
+                    obs["model2_ok"] = bool(holds(m.And(base, m.Not(a), m.Not(b)), val))
                 p.pop()
                 obs["verdict3"] = p.solve()
+                if obs["verdict3"]:
+                    model = p.get_model()
+                    val = {"a": model.get_py_value(a), "b": model.get_py_value(b)}
+                    obs["model3_ok"] = bool(holds(base, val))
             elif script == "solve-twice":
                 obs["verdict2"] = p.solve()
                 if obs["verdict2"]:
@@ -150,10 +156,10 @@ def expected(script, unsat):
     if script in ("solve+model", "solve+value") and sat:
         e["model_ok"] = True
     if script == "solve-push-solve":
-        e["verdict2"] = sat     # (a|b) & !a is sat ; a&!a&!a unsat
-        if sat:
-            e["model2_ok"] = True
+        e["verdict2"] = False   # (a|b) & !a & !b and a & !a & ... are both unsat
         e["verdict3"] = sat
+        if sat:
+            e["model3_ok"] = True
     if script == "solve-twice":
         e["verdict2"] = sat
         if sat:
